@@ -6,6 +6,9 @@ R25.1 field_read_coverage: every text-borne field of GrammarConfig / Cfg / Scann
       A field that is added to one of these types must be classified (fail closed).
 R25.2 directive polarity: the `%allow_unmatched`, `%auto_newline_off`, `%auto_ws_off` templates are emitted on the
       edge of the corresponding bool field that the reader maps the directive to.
+R25.4 priority of the user-type resolver: later HashMap inserts override earlier ones, so the map must be filled in the
+      order aliases (%user_type) -> %nt_type sentinels -> %t_type sentinel; otherwise a globally defined terminal or
+      non-terminal type is rendered explicitly (or an alias is lost) and the text read back differs.
 R25.3 the skip sentinels "%nt_type"/"%t_type" are only *compared* in the format functions, never produced there:
       a format function that manufactures the sentinel drops a user type that has no global definition.
 """
@@ -198,3 +201,38 @@ def check(ctx):
                                           "%s manufactures the skip sentinel %s (via %s): a user type without global "
                                           "definition is then dropped from the rendered text"
                                           % (short(body.path), o[2], short(c.path or "?")), where(b, c.line))
+
+    # ---------------------------------------------------------------- R25.4
+    res = facts.body("parol::generators::grammar_config::GrammarConfig::get_user_type_resolver")
+    ev = {}
+    for c in res.calls():
+        if (c.path or "").endswith("Iterator::fold"):
+            src = operand_term(res, c.args[0])
+            hops = 0
+            while src[0] == "call" and hops < 4:
+                f = [e[2] for e in (raw_operand_place(res, src[1].args[0]) or [0])[1:] if isinstance(e, list) and e[0] == "f"] \
+                    if src[1].args else []
+                if "user_type_defs" in f:
+                    ev["user"] = c.bb
+                    break
+                if "nt_type_defs" in f:
+                    ev["nt"] = c.bb
+                    break
+                src = operand_term(res, src[1].args[0]) if src[1].args else ("unknown",)
+                hops += 1
+    for bi, blk in enumerate(res.blocks):
+        for st in blk["s"]:
+            if st[0] == "a" and '"%t_type"' in __import__("json").dumps(st[2]):
+                ev.setdefault("t", bi)
+        t = blk["t"]
+        if t[0] == "call" and '"%t_type"' in __import__("json").dumps(t[2]):
+            ev.setdefault("t", bi)
+    if set(ev) != {"user", "nt", "t"}:
+        raise AnchorMissing("get_user_type_resolver: cannot find the three fill steps (found %s)" % sorted(ev))
+    order_ok = ev["user"] not in cfg.reachable_from(res, ev["nt"]) - {ev["nt"]} and \
+        ev["user"] not in cfg.reachable_from(res, ev["t"]) and ev["nt"] not in cfg.reachable_from(res, ev["t"])
+    ctx.check(order_ok, "R25.4", "get_user_type_resolver|sentinels-override-aliases",
+              "the resolver map is filled aliases -> %nt_type -> %t_type (later inserts win)",
+              "the user-type resolver inserts an alias after a skip sentinel: for a type that has both a global "
+              "%t_type/%nt_type definition and a %user_type alias the renderer prints the alias explicitly, the text read "
+              "back is a different grammar", where(res))
